@@ -128,6 +128,10 @@ def check(h, baseline=None):
             ambiguous_clients.add(r.c)
             continue
         for o in txn.outcomes_of(h, r):
+            if o[2] in ('none', 'both'):
+                # the I/O control block was completed by something that is no reply at all (or by two things at once)
+                viol('C11.b', 'completed-without-reply', 'request tok=%x (%s, peer %s, invoke %s) was completed at t=%.4f with %s'
+                     % (r.tok, r.mode, r.peer, r.invoke, o[1], 'neither a response nor an error' if o[2] == 'none' else 'a response AND an error'), mode=r.mode)
             if o[2] == 'ack':
                 q = h.by_tok.get(o[3])
                 if o[3] != r.tok and q is not None and (q.c, q.peer, q.invoke) == (r.c, r.peer, r.invoke):
@@ -296,6 +300,9 @@ def gen_desc(seed, idx):
                     op['invoke'] = rng.choice([0, 1, 2, 5, 200, 255, rng.randrange(256)])
                 used_forced.append(op['invoke'])
             ops.append(op)
+            if rng.random() < 0.08:
+                # unconfirmed traffic from the requester to the peer that still owes the answer
+                ops.append({'t': round(t + rng.choice([0.0, 0.0005, 0.1, 0.5]), 4), 'op': 'unconf', 'c': op['c'], 's': op['s']})
             if cmode == 'iocb' and rng.random() < (0.4 if shape == 'iocb-cancel' else 0.1):
                 ops.append({'t': round(t + rng.choice([0.0, 0.001, 0.1, tout / 1000.0]), 4), 'op': 'cancel', 'tok': op['tok']})
     if shape == 'twoway':
